@@ -454,6 +454,50 @@ def alias_like_types(ctx):
     return n
 
 
+def lifetime_churn_cases(ctx):
+    """Thousands of messages that were built without checks (skip_checks=True, as a file reader or a port builds them) are
+    copied, handed on and dropped; the memory they lived in is used again.  Messages built afterwards are checked like
+    any other: every invalid override, assignment and += is refused."""
+    import gc
+    import mido
+    n = 0
+    for round_ in range(3):
+        pool = [Message('note_on', note=i % 128, velocity=(i * 7) % 128, skip_checks=True) for i in range(1500)]
+        pool += [Message('sysex', data=(i % 128,), skip_checks=True) for i in range(500)]
+        port = mido.ports.EchoPort('churn')
+        copies = [m.copy() for m in pool]
+        for m in pool[:400]:
+            port.send(m)
+        got = list(port.iter_pending())
+        port.close()
+        del pool, copies, got
+        gc.collect()
+        fresh = [Message('note_on', note=i % 128, velocity=i % 128) for i in range(4000)] + \
+                [Message('sysex', data=(1, 2)) for _ in range(500)]
+        accepted = []
+        for i, m in enumerate(fresh):
+            for how in ('copy', 'setattr'):
+                try:
+                    if m.type == 'sysex':
+                        if how == 'copy':
+                            r = m.copy(data=[1, 200])
+                        else:
+                            m.data += [300]
+                            r = m
+                    elif how == 'copy':
+                        r = m.copy(note=128) if i % 3 == 0 else m.copy(velocity=None) if i % 3 == 1 else m.copy(time='later')
+                    else:
+                        m.note = 128
+                        r = m
+                    accepted.append((i, how, repr(r)[:80]))
+                except OKEXC:
+                    pass
+                n += 1
+        ctx.check('out-of-domain rejected', not accepted, 'accepted-invalid-after-unchecked-messages-died',
+                  {'kind': 'lifetime-churn', 'round': round_}, lambda: {'accepted': len(accepted), 'first': accepted[:3]})
+    return n
+
+
 def unknown_types(ctx):
     n = 0
     for bt in BAD_TYPES:
@@ -650,6 +694,11 @@ def run(ctx):
             ctx.nontrivial(('hist', seed))
             n += 1
     ctx.extra('histories', nh * len(midi1.TYPES))
+    if ctx.shard == 1 % ctx.nshards:
+        k = lifetime_churn_cases(ctx)
+        ctx.nontrivial(None, k)
+        ctx.extra('lifetime_churn_calls', k)
+        n += k
     from .. import coldstart
     n += coldstart.phase(ctx, cold_jobs(), 'state valid after accept', offset=2)
     ctx.count('cases', n)
@@ -682,6 +731,9 @@ def cold_jobs():
 
 
 def replay(ctx, case):
+    if case.get('kind') == 'lifetime-churn':
+        lifetime_churn_cases(ctx)
+        return
     if case.get('kind') == 'odd-time-text':
         odd_time_texts(ctx)
         return
